@@ -334,7 +334,7 @@ def ops_for(nframes, builds, solves, sysvel=True):
 def build(tier, seed):
     cells = first_connected("v5x5", 7)
     if tier == "quick":
-        r1 = [[["bang", 0], ["sdef", 0], ["pbuild", 0], ["psolve", 0]]]
+        r1 = [[["bang", 0], ["sdef", 0], ["pbuild", 0], ["psolve", 0]], [["bdef", 0], ["sdef", 0], ["bang", 0], ["sdef", 0], ["pbuild", 0]]]
         r2 = [[["bdef", 0], ["sdef", 0], ["bdef", 1], ["svel", 1]]]
         return [Histories("one-frame", "v5x5", cells, 1, ops_for(1, ["bdef", "btau", "bang"], ["sdef", "slsq", "slin", "sfix"]), 3, r1),
                 Histories("two-frames", "v5x5", cells, 2, ops_for(2, ["bdef", "bang"], ["sdef", "svel"]), 3),
